@@ -80,6 +80,21 @@ func c08WorldRaw(shape string, nodes ...string) *world.LW {
 		}
 		must(w.Propose(ctx, 0, w.Tx("s1", R, A, 1, 0)))
 		must(w.Propose(ctx, 0, w.Tx("s2", R, A, 1, 0)))
+	case "two-leaves":
+		// a chain of four plus a vertex sealed by M on an inner vertex of the chain: the ledger has two leaves whose
+		// histories overlap, so a DAG stream walks the second leaf while the channel still holds vertices of the first
+		var inner accountant.Vertex
+		for i := 0; i < 4; i++ {
+			v, err := w.Propose(ctx, 0, w.Tx(fmt.Sprintf("s%d", i), R, A, 1, 0))
+			must(v, err)
+			if i == 1 {
+				inner = v
+			}
+		}
+		side := w.Craft(M, w.Tx("m0", R, B, 1, 0), inner.Hash, inner.Hash, inner.Weight+1)
+		if err := w.Deliver(ctx, 0, side); err != nil {
+			panic("c08 setup deliver: " + err.Error())
+		}
 	case "overflow":
 		h := uint64(1) << 63
 		must(w.Propose(ctx, 0, w.Tx("o1", R, A, h, 0)))
@@ -167,6 +182,53 @@ func c08Single(op, shape string) func(x *sched.X) {
 		vsched.Join(h)
 		x.Vars["cancelled"] = cctx.Cancelled()
 		x.Obsf("polls=%d cancelled=%v", cctx.N, cctx.Cancelled())
+		vsched.Quiet(true)
+		c08Probe(w, x)
+	}
+}
+
+// c08PausedStream: a stream consumer (a syncing peer) takes k vertices and then pauses - it neither reads nor goes
+// away - while a client proposes; the consumer resumes only after the proposal returned. Whatever the stream producer
+// is doing at the moment the consumer pauses (in particular: parked on a full channel between two leaves), it must not
+// hold anything the proposal needs. k ranges over every position of the stream of the two-leaf ledger.
+func c08PausedStream(shape string, k int) func(x *sched.X) {
+	return func(x *sched.X) {
+		vsched.Quiet(true)
+		w := c08World(shape, "G")
+		x.Vars["w"] = w
+		x.Vars["phase"] = "op"
+		vsched.Quiet(false)
+		resume := vsched.MakeChan[int](0)
+		obs := make([]string, 2)
+		// the proposer is created first: under the default order the consumer and the stream producer run until both
+		// are parked before the proposal starts; schedule deviations move the proposal to earlier points
+		hc := vsched.GoClient("T0-create", func() {
+			obs[0] = c08Op(w, "create", context.Background())
+			vsched.Close(resume)
+		})
+		hs := vsched.GoClient("T1-paused-consumer", func() {
+			ch := w.Nodes[0].Book.StreamDAG(context.Background())
+			n := 0
+			for n < k {
+				v, ok := vsched.Recv2(ch)
+				if !ok || v == nil {
+					break
+				}
+				n++
+			}
+			taken := n
+			vsched.Recv2(resume)
+			for {
+				v, ok := vsched.Recv2(ch)
+				if !ok || v == nil {
+					break
+				}
+				n++
+			}
+			obs[1] = fmt.Sprintf("stream-paused-after=%d total=%d", taken, n)
+		})
+		vsched.Join(hc, hs)
+		x.Obs = append(x.Obs, obs...)
 		vsched.Quiet(true)
 		c08Probe(w, x)
 	}
@@ -374,6 +436,13 @@ func c08Scenarios() map[string]*sched.Scenario {
 	add("S9/same-vertex-delivered-twice+create/diamond", []int{-1}, c08Multi("diamond", []string{"add-dup", "add-dup", "create"}))
 	add("S6/stream-abandoned/chain6", []int{-1}, c08Single("stream-abandon", "chain6"))
 	add("S6/stream-abandoned+create/chain6", []int{-1}, c08Multi("chain6", []string{"stream-abandon", "create"}))
+	ks := []int{1, 2, 3, 4}
+	if common.Tier() == "thorough" {
+		ks = []int{0, 1, 2, 3, 4, 5, 6}
+	}
+	for _, k := range ks {
+		add(fmt.Sprintf("S10/stream-paused-after-%d+create/two-leaves", k), []int{-1}, c08PausedStream("two-leaves", k))
+	}
 	return m
 }
 
